@@ -76,6 +76,16 @@ def rand_config(rng, prob, allow=("bounds", "scaling", "proj", "avg", "soft", "h
                 kw["scaling_within_bounds"] = True
                 kw["rhobeg"] = min(0.1, 0.45)
                 d["scaling"] = True
+    if has_bounds and "proj" in allow and d.get("bounds") == "box" and "scaling_within_bounds" not in kw and rng.random() < 0.12:
+        # bounds AND projections: solve() appends the box as the last projector
+        xl_, xu_ = kw["bounds"]
+        mid = 0.5 * (xl_ + xu_)
+        a = rng.normal(size=n)
+        a = a / np.linalg.norm(a)
+        bb = float(a @ mid - 0.2 * rng.random())
+        kw["projections"] = [lambda x, a=a, bb=bb: x if a @ x >= bb else x + (bb - a @ x) * a]
+        d["proj"] = 1
+        d["bounds"] = "box+proj"
     if has_proj:
         c = x0 + rng.normal(size=n) * 0.5
         P = [lambda x, c=c: pball(x, c, 1.0)]
@@ -84,6 +94,14 @@ def rand_config(rng, prob, allow=("bounds", "scaling", "proj", "avg", "soft", "h
             P.append(lambda x, lo=lo, hi=hi: pbox(x, lo, hi))
         kw["projections"] = P
         d["proj"] = len(P)
+    if "regu" in allow and rng.random() < 0.12 and not kw.get("scaling_within_bounds"):
+        lam = float(10 ** rng.uniform(-2, 0))
+        kw["h"] = lambda x, lam=lam: lam * float(np.sum(np.abs(x)))
+        kw["lh"] = lam * float(np.sqrt(n))
+        kw["prox_uh"] = lambda x, u, lam=lam: np.sign(x) * np.maximum(np.abs(x) - lam * u, 0.0)
+        kw["maxfun"] = min(kw["maxfun"], 40)
+        d["maxfun"] = kw["maxfun"]
+        d["regu"] = lam
     if "avg" in allow and rng.random() < 0.25:
         kk = int(rng.integers(1, 4))
         mode = int(rng.integers(0, 3))
@@ -146,6 +164,20 @@ def rand_config(rng, prob, allow=("bounds", "scaling", "proj", "avg", "soft", "h
     if "noise" in allow and rng.random() < 0.1:
         kw["objfun_has_noise"] = True
         d["noise"] = True
+    if "noise" in allow and rng.random() < 0.12:
+        # user-supplied noise level: exercises the 'all points within noise level' exit / restart route
+        up["noise.quit_on_noise_level"] = True
+        if rng.random() < 0.7:
+            up["noise.additive_noise_level"] = float(10 ** rng.uniform(-3, 1))
+        else:
+            up["noise.multiplicative_noise_level"] = float(10 ** rng.uniform(-3, 0))
+        d["noiselevel"] = True
+    if rng.random() < 0.12:
+        # tightened slow-progress parameters: exercises the slow-iteration exit / restart route
+        up["slow.max_slow_iters"] = int(rng.integers(1, 5))
+        up["slow.thresh_for_slow"] = float(rng.choice([1e-2, 0.1, 1.0]))
+        up["slow.history_for_slow"] = int(rng.integers(1, 4))
+        d["slow"] = True
     if "diag" in allow and rng.random() < 0.3:
         up["logging.save_diagnostic_info"] = True
         if rng.random() < 0.5:
@@ -181,7 +213,18 @@ def faulty(f, k, kind):
             elif kind == "huge":
                 r[0] = 1e200
             elif kind == "raise":
-                raise Boom("fault injected at call %d" % state["i"])
+                state["exc"] = Boom("fault injected at call %d" % state["i"])
+                raise state["exc"]
+            elif kind == "raise-linalg":      # an exception type dfols itself catches around its linear algebra
+                state["exc"] = np.linalg.LinAlgError("fault injected at call %d" % state["i"])
+                raise state["exc"]
+            elif kind == "raise-value":
+                state["exc"] = ValueError("fault injected at call %d" % state["i"])
+                raise state["exc"]
+            elif kind == "raise-overflow":
+                state["exc"] = OverflowError("fault injected at call %d" % state["i"])
+                raise state["exc"]
         return r
     g.Boom = Boom
+    g.state = state
     return g
